@@ -9,6 +9,7 @@ import Updog.Model.Rows
 import Updog.Model.Server
 import Updog.Model.Cache
 import Updog.Model.BigWriter
+import Updog.Model.FastBits
 import Updog.Spec.Sat
 import Std.Data.HashMap
 open Updog
@@ -16,31 +17,6 @@ namespace Updog.Oracle
 
 /-! ## fast construction of the index (same meaning as `Writer.addRows`, hash maps instead of lists);
 for datasets too large for the list-based model. Small datasets are built both ways and compared. -/
-
-def popcount64 (x : UInt64) : Nat := Id.run do
-  let mut v := x
-  let m1 : UInt64 := 0x5555555555555555
-  let m2 : UInt64 := 0x3333333333333333
-  let m4 : UInt64 := 0x0f0f0f0f0f0f0f0f
-  let h01 : UInt64 := 0x0101010101010101
-  v := v - ((v >>> 1) &&& m1)
-  v := (v &&& m2) + ((v >>> 2) &&& m2)
-  v := (v + (v >>> 4)) &&& m4
-  return ((v * h01) >>> 56).toNat
-
-partial def popcountFast (n : Nat) : Nat :=
-  if n < 18446744073709551616 then popcount64 n.toUInt64
-  else
-    let k := (Nat.log2 n + 1) / 2
-    popcountFast (n >>> k) + popcountFast (n &&& ((1 <<< k) - 1))
-
-/-- bit set from a list of ascending row ids, divide and conquer -/
-partial def natOfIds (ids : Array Nat) (lo hi : Nat) : Nat :=
-  if hi ≤ lo then 0
-  else if hi = lo + 1 then 1 <<< ids[lo]!
-  else
-    let mid := (lo + hi) / 2
-    natOfIds ids lo mid ||| natOfIds ids mid hi
 
 structure FastW where
   cols : Array Bytes := #[]
@@ -66,7 +42,7 @@ def FastW.addRow (w : FastW) (r : Row) : FastW := Id.run do
   return { w with next := w.next + 1 }
 
 def FastW.toIndex (w : FastW) : Index :=
-  let m : Std.HashMap UInt64 Nat := w.ids.fold (fun m h a => m.insert h (natOfIds a 0 a.size)) {}
+  let m : Std.HashMap UInt64 Nat := w.ids.fold (fun m h a => m.insert h (natOfIdsArray a)) {}
   { schema := w.cols.toList.map fun c => (c, (w.colVals.getD c #[]).toList),
     next := w.next,
     getCol := fun h => m[h]? }
@@ -147,24 +123,6 @@ def fmtResult : Option Result → String
 def fmtSchema (s : List (Bytes × List Bytes)) : String :=
   "ok" ++ String.join (s.map fun cv => " " ++ toHex cv.1 ++ ":" ++ ",".intercalate (cv.2.map toHex))
 
-/-- result with the model's `popcount` replaced by the fast one (same function, see `popcountFast`) -/
-def executeFast (ix : Index) (q : Query) : Option Result :=
-  match populateGroupBy ix.schema q.groupBy with
-  | none => none
-  | some fields =>
-    match eval xxhash64 ix q.expr with
-    | none => none
-    | some bm =>
-      let gs := if fields.isEmpty then [] else
-        (fields.foldl (fun rgs gbf => rgs.flatMap fun rg => gbf.values.filterMap fun v =>
-          match ix.getCol v.2 with
-          | none => none
-          | some vbm =>
-            let r := rg.2 &&& vbm
-            if r = 0 then none else some (rg.1 ++ [(gbf.col, v.1)], r)) [([], bm)]).map
-          fun rg => (rg.1, popcountFast rg.2)
-      some ⟨popcountFast bm, gs⟩
-
 /-- an unbounded map cache that logs every call: the harness drives the real code with the same kind of cache
     and compares the logs, which ties the order and keys of the cache calls of `evalC` to the Go `eval` methods -/
 abbrev LogCache := List (UInt64 × Nat) × List String
@@ -214,7 +172,7 @@ def stepIdx (st : IdxSt) (cmd : String) (args : List String) : IdxSt × String :
     | _ => ({ st with ix := some ix, mix := none }, s!"ok rows={ix.next}")
   | "q" =>   -- model Execute on the (fast-built) index
     match st.ix, parseQuery args with
-    | some ix, some q => (st, fmtResult (executeFast ix q))
+    | some ix, some q => (st, fmtResult (executeFast xxhash64 ix q))
     | _, _ => (st, "bad-op")
   | "qm" =>  -- model Execute, exactly the definitions the theorems are about, on the list-built index
     match st.mix, parseQuery args with
@@ -236,7 +194,7 @@ def stepIdx (st : IdxSt) (cmd : String) (args : List String) : IdxSt × String :
   | "rows" =>  -- what database/sql must deliver for this query on this index
     match st.ix, parseQuery args with
     | some ix, some q =>
-      match executeFast ix q with
+      match executeFast xxhash64 ix q with
       | none => (st, "err")
       | some r =>
         let rs := newRows r q.groupBy
@@ -248,7 +206,7 @@ def stepIdx (st : IdxSt) (cmd : String) (args : List String) : IdxSt × String :
     match st.ix, parseQuery args with
     | some ix, some q =>
       let r := executeC xxhash64 logCacheImpl ix (st.logc, []) q
-      let ans := match r.2 with | none => "err" | some res => s!"ok {popcountFast 0 + res.count}"
+      let ans := match r.2 with | none => "err" | some res => s!"ok {res.count}"
       ({ st with logc := r.1.1 }, ans ++ " " ++ " ".intercalate r.1.2)
     | _, _ => (st, "bad-op")
   | "ctrace-reset" => ({ st with logc := [] }, "ok")
